@@ -261,6 +261,31 @@ void h_step(void) {
     }
   }
 
+  /* C04 life cycle: when the machine finishes, every invocation is cancelled */
+  if (!(g_pre.flags & USCXML_CTX_FINISHED) && (g_ctx.flags & USCXML_CTX_FINISHED)) {
+    int left = 0;
+    for (int i = 0; i < D_N; i++) if (sp_bit(g_ctx.invocations, i)) left = 1;
+    __CPROVER_assert(!left, "C04.lifecycle: a finished machine has no invocation left running (all are cancelled in the finishing step)");
+  }
+#ifndef SKIP_HIST
+  /* C02 history: what is remembered for a history changes only in a step in which its parent was active, and then it
+     becomes exactly what was active below the parent (shallow: among its child states) before the step */
+  if (g_pre_inv && (g_ret == USCXML_ERR_OK || g_ret == USCXML_ERR_IDLE || g_ret == USCXML_ERR_DONE)) {
+    for (int hh = 1; hh < D_N; hh++) {
+      if (!sp_is_history(hh)) continue;
+      int p = d_parent[hh], same = 1, recorded = 1;
+      for (int j = 1; j < D_N; j++) {
+        int in_region = sp_proper(j) && (d_kind[hh] == K_HSHALLOW ? sp_child(j, p) : sp_desc(j, p));
+        if (!in_region) continue;
+        if (sp_bit(g_ctx.history, j) != sp_bit(g_pre.history, j)) same = 0;
+        if (sp_bit(g_ctx.history, j) != sp_bit(g_pre.config, j)) recorded = 0;
+      }
+      wit_row = hh;
+      __CPROVER_assert(same || (sp_bit(g_pre.config, p) && recorded), "C02.history: the record of a history changes only when its parent was active, and then to the states that were active below the parent");
+    }
+  }
+#endif
+
   /* C02: Inv is inductive */
   if (g_pre_inv && (g_ret == USCXML_ERR_OK || g_ret == USCXML_ERR_IDLE || g_ret == USCXML_ERR_DONE)) {
     __CPROVER_assert(legal_config(g_ctx.config), "C02.legal: the configuration after the step is a legal configuration (3.11)");
